@@ -69,6 +69,17 @@ impl LKHSearch {
         let orig_routes: HashMap<_, _> =
             orig_solution.solution.routes.iter().map(|route| (&route.route().actor, route)).collect();
 
+        // NOTE: the repair starts from a fresh context which places jobs of user locks into their routes again,
+        // also those which the search has unassigned since. Routes with such jobs cannot be mixed with routes of
+        // the original solution: together they can break rules which span several routes (e.g. job groups)
+        let has_reinstated_jobs = new_solution.solution.routes.iter().any(|route_ctx| {
+            let orig_route_ctx = orig_routes.get(&route_ctx.route().actor);
+            route_ctx.route().tour.jobs().any(|job| orig_route_ctx.is_none_or(|orig| !orig.route().tour.contains(job)))
+        });
+        if has_reinstated_jobs {
+            return orig_solution.deep_copy();
+        }
+
         // get set of actors already present in new solution
         let existing_actors: HashSet<_> =
             new_solution.solution.routes.iter().map(|route| route.route().actor.clone()).collect();
